@@ -351,9 +351,18 @@ def check_view_algos(c, tx, b, label):
 
 def strip_v2_txversion(b):
     """a PSBTv2 without PSBT_GLOBAL_TX_VERSION (both entry points then sign nVersion 2)"""
-    pair = gen.kv(b"\x02", b[8:12])
-    assert b[5:5 + len(pair)] == pair
-    return b[:5] + b[5 + len(pair):]
+    # walk the global scope with the harness's own reader: the pair is not necessarily the first one, and the
+    # generator omits it now and then (then the PSBT is already what this function is to produce)
+    pos = 5
+    while pos < len(b) and b[pos] != 0:
+        kl, p1 = gen_psbt.read_cs(b, pos)
+        key = b[p1:p1 + kl]
+        vl, p2 = gen_psbt.read_cs(b, p1 + kl)
+        end = p2 + vl
+        if key == b"\x02":
+            return b[:pos] + b[end:]
+        pos = end
+    return b
 
 
 def explore_entry_points(c, n):
